@@ -327,7 +327,7 @@ def run(c):
     import treelog
     quick = c.tier == 'quick'
     c.rule = ('scripts: random evaluable DAGs with 1-3 outer loops (LoopSum / LoopConcatenate over scalars, vectors, Inflate scatters, nested loops, '
-              'loops reading earlier loops), the in-place protocol zoo (all chains of Transpose / Diagonalize / Add outside and Transpose / Diagonalize / Add / inner LoopSum / inner LoopConcatenate inside a parallel LoopSum / LoopConcatenate over generic / Inflate / Assemble / matrix leaves: all 192 chains of length <= 1 as written, plus a random sample (quick 60, thorough 2000) of the 5424 other (chain of length <= 2, as written | simplified+optimized) combinations) '
+              'loops reading earlier loops), the in-place protocol zoo (all chains of Transpose / Diagonalize / Add outside and Transpose / Diagonalize / Add / inner LoopSum / inner LoopConcatenate inside a parallel LoopSum / LoopConcatenate over generic / Inflate / Assemble / matrix leaves: all 192 chains of length <= 1 as written, plus a random sample (quick 60, thorough 1500) of the 5424 other (chain of length <= 2, as written | simplified+optimized) combinations) '
               'and nutils integrals / sample evaluations on rectilinear meshes, compiled under maxprocs 2-8; '
               'schedules: event lists s<w>/k<w>/x<w> for 1-4 real processes sharing one parallel.range(0..4), biased to contention inside __next__; '
               'faults: (role, kind, ordinal) in a probe evaluated inside the loop; a case is non-trivial when the loop has >= 2 iterations and >= 2 processes; '
@@ -349,9 +349,9 @@ def run(c):
         reqs.append((kind, payload, line))
 
     t_budget = dict(quick=dict(nscripts=45, nnutils=14, nsched=110, nfault=16, amp=10, zoo_extra=60, zoo_dyn=48, zoo_amp=48),
-                    thorough=dict(nscripts=700, nnutils=160, nsched=4000, nfault=220, amp=120, zoo_extra=2000, zoo_dyn=500, zoo_amp=400))[c.tier]
+                    thorough=dict(nscripts=700, nnutils=160, nsched=4000, nfault=220, amp=120, zoo_extra=1500, zoo_dyn=500, zoo_amp=400))[c.tier]
     # wall-clock boxes per real-process stream (seconds): the case lists are deterministic, a loaded machine just gets through a shorter prefix
-    box = dict(quick=dict(m1=10, m2=6, m3=4, loc=3, sched=10, width=4, shared=4, fault=8, zoo=7, zooamp=6), thorough=dict(m1=200, m2=100, m3=80, loc=40, sched=240, width=30, shared=30, fault=180, zoo=90, zooamp=80))[c.tier]
+    box = dict(quick=dict(m1=10, m2=6, m3=4, loc=3, sched=10, width=4, shared=4, fault=8, zoo=5, zooamp=5), thorough=dict(m1=200, m2=100, m3=80, loc=40, sched=240, width=30, shared=30, fault=180, zoo=70, zooamp=60))[c.tier]
     import random
     R = {k: random.Random(c.rng.getrandbits(64)) for k in ('m1', 'm2', 'm3', 'loc', 'x', 'sched', 'shared', 'fault', 'explore', 'search', 'zoo')}
     c.search_rng = R['search']
